@@ -103,9 +103,9 @@ func (C07Plain2) TableName() string { return "rc_plain2" }
 func (C07Plain3) TableName() string { return "rc_plain3" }
 
 var c07AllModels = []interface{}{&RCompany{}, &RProfile{}, &RPet{}, &RLang{}, &RToy{}, &RUser{}, &C07Plain1{}, &C07Plain2{}, &C07Plain3{},
-	&C07ScA{}, &C07ScB{}, &C07ScH{}, &C07ScN{}, &C07ScO{}, &C07ScS{}, &C07ScC{}, &C07ScD{}, &C07ScE{}, &C07ScQ{}, &C07Zoo{}, &C07FailHook{}}
+	&C07ScA{}, &C07ScB{}, &C07ScH{}, &C07ScN{}, &C07ScO{}, &C07ScS{}, &C07ScC{}, &C07ScD{}, &C07ScE{}, &C07ScQ{}, &C07Zoo{}, &C07FailHook{}, &C07Cat{}, &C07ItemTag{}, &C07Item{}}
 var c07AllTables = []string{"r_companies", "r_profiles", "r_pets", "r_langs", "r_toys", "r_users", "r_user_langs",
-	"rc_plain1", "rc_plain2", "rc_plain3", "sc_as", "sc_bs", "sc_hs", "sc_ns", "sc_os", "sc_ss", "sc_cs", "sc_ds", "sc_es", "sc_qs", "c07_zoos", "c07_fail_hooks"}
+	"rc_plain1", "rc_plain2", "rc_plain3", "sc_as", "sc_bs", "sc_hs", "sc_ns", "sc_os", "sc_ss", "sc_cs", "sc_ds", "sc_es", "sc_qs", "c07_zoos", "c07_fail_hooks", "c07_cats", "c07_item_tags", "c07_items"}
 
 func c07Dump(sqlDB *sql.DB) map[string][]string {
 	out := map[string][]string{}
@@ -662,6 +662,12 @@ func c07RunRaceProg(p c07RaceProg, serial bool) c07RaceRun {
 			c07ZooSeed(setup, g)
 		}
 	}
+	if p.Family == "carry" {
+		for g := 0; g < p.G; g++ {
+			c07CarrySeed(setup, g)
+		}
+		c07CarrySeed(setup, c07CarryStaticG)
+	}
 	var failSeq [][2]int
 	if p.Family == "fail" {
 		defer c07FailPrepare(p, setup, rec, sqlDB)()
@@ -704,6 +710,9 @@ func c07RunRaceProg(p c07RaceProg, serial bool) c07RaceRun {
 			return shared.Session(&gorm.Session{PrepareStmt: true})
 		case "debug":
 			return shared.Debug()
+		case "carry": // a handle that carries a random subset of Order / Select / Joins / Preload / Group / … (c07_carry.go)
+			h, _ := c07CarryHandle(shared, p.Seed, conns == 1 && !c07CarryStatic(p.Seed))
+			return h
 		default:
 			return shared
 		}
@@ -720,6 +729,8 @@ func c07RunRaceProg(p c07RaceProg, serial bool) c07RaceRun {
 			return w.opZoo(h)
 		case "fail":
 			return w.opFail(h)
+		case "carry":
+			return w.opCarry(h)
 		default:
 			return w.opPlain(h)
 		}
@@ -736,6 +747,9 @@ func c07RunRaceProg(p c07RaceProg, serial bool) c07RaceRun {
 		w := &c07RaceWorker{g: 90, base: 900000, rng: rand.New(rand.NewSource(p.Seed + 5)), kinds: map[string]bool{}, ro: conns > 1, only: p.Only, nohold: nohold, hmodel: p.Handle == "model" && conns > 1, failSeq: failSeq}
 		if p.Family == "zoo" {
 			c07ZooSeed(setup, 89)
+		}
+		if p.Family == "carry" {
+			c07CarrySeed(setup, 89)
 		}
 		hw := mk()
 		for _, m := range c07AllModels {
@@ -777,10 +791,18 @@ func c07RunRaceProg(p c07RaceProg, serial bool) c07RaceRun {
 		fam = []interface{}{&C07Zoo{}, &C07ZooLite{}}
 	case "fail":
 		fam = []interface{}{&C07Plain1{}, &C07Plain2{}, &C07Plain3{}, &C07FailHook{}}
+	case "carry":
+		fam = []interface{}{&C07Cat{}, &C07ItemTag{}, &C07Item{}}
+		// the parse phase of this family is over before the goroutines start (no parser runs concurrently: F10 / F12 cannot
+		// apply); "cold" = nothing else has been used yet (first use of every spelling / finisher happens concurrently)
+		for _, m := range fam {
+			st := &gorm.Statement{DB: shared}
+			_ = st.Parse(m)
+		}
 	default:
 		fam = []interface{}{&C07Plain1{}, &C07Plain2{}, &C07Plain3{}}
 	}
-	stampede := p.Cold && p.Seed%2 == 0
+	stampede := p.Cold && p.Seed%2 == 0 && p.Family != "carry"
 	ptrs := make([]map[string]string, p.G)
 	var barrier *c07Barrier
 	if !serial && p.Family == "fail" {
@@ -998,7 +1020,7 @@ func c07ClassifyPair(p c07RacePair, prog c07RaceProg) string {
 	if p.A == "?" && p.B == "?" {
 		return "unrestorable"
 	}
-	coldRelated := prog.Cold && prog.Family != "unrelated"
+	coldRelated := prog.Cold && prog.Family != "unrelated" && prog.Family != "carry" && prog.Family != "fresh"
 	pa, pb := c07IsParser(p.A) || p.A == "?", c07IsParser(p.B) || p.B == "?"
 	if coldRelated && pa && pb && !(p.A == "schema.Schema.parseRelation" && p.B == "schema.Schema.parseRelation") {
 		return "F10"
@@ -1268,7 +1290,7 @@ func c07GenRaceProg(rng *rand.Rand) c07RaceProg {
 	if c07Thorough {
 		gs = []int{2, 4, 8, 16, 32}
 	}
-	fams := []string{"related", "mutual", "mutual", "mutual", "unrelated", "readers", "zoo", "zoo", "zoo", "zoo", "fail", "fail", "fail"}
+	fams := []string{"related", "mutual", "mutual", "mutual", "unrelated", "readers", "zoo", "zoo", "zoo", "zoo", "fail", "fail", "fail", "carry", "carry", "carry", "carry"}
 	p := c07RaceProg{Seed: rng.Int63n(1 << 40), G: gs[rng.Intn(len(gs))], Cold: rng.Intn(2) == 0, Family: fams[rng.Intn(len(fams))],
 		Prepare: rng.Intn(3) == 0, Ops: 4 + rng.Intn(8)}
 	switch p.Family {
@@ -1280,6 +1302,12 @@ func c07GenRaceProg(rng *rand.Rand) c07RaceProg {
 		// read-only on several connections: scans really overlap.  A handle that carries Model(&obj) shares the caller's OBJECT
 		// between the goroutines (gorm writes keys / timestamps back into it): only used by read-only programs
 		if rng.Intn(2) == 0 || p.Handle == "model" {
+			p.Conns = []int{2, 4, 8}[rng.Intn(3)]
+		}
+	case "carry":
+		p.Handle = "carry"
+		p.Cold = rng.Intn(3) != 0
+		if rng.Intn(3) == 0 { // read-only on several connections (the handle may then carry Model(&obj))
 			p.Conns = []int{2, 4, 8}[rng.Intn(3)]
 		}
 	case "fail":
